@@ -190,6 +190,32 @@ def lr1_not_lalr(rng, idx):
             "prods": [{"lhs": l, "rhs": list(r_)} for l, r_ in prods]}
 
 
+def recovery_shapes(rng, idx):
+    """grammars in which error recovery has to *reduce on the error lookahead* before it can shift `!`
+    (a nullable or complete nonterminal directly in front of `!`), in list and bracket contexts"""
+    a, b, c, d, e = TS[:5]
+    fam = rng.randrange(4)
+    if fam == 0:      # "(" Opt Body ")" with Opt nullable, Body = item | !
+        prods = [("S", [a, "A", "B", b]), ("A", []), ("A", [d]), ("B", [c]), ("B", ["error"])]
+        nts = ["S", "A", "B"]
+        if rng.random() < 0.5:
+            prods.append(("S", ["S", a, "A", "B", b]))
+    elif fam == 1:    # a list of items, an item is a token or `!`
+        prods = [("S", ["A"]), ("A", ["A", "B"]), ("A", ["B"]), ("B", [a]), ("B", [b, c]), ("B", ["error"])]
+        nts = ["S", "A", "B"]
+        if rng.random() < 0.5:
+            prods[0] = ("S", [d, "A", d])
+    elif fam == 2:    # statements with a terminator; `!` replaces a statement body, optional prefix before it
+        prods = [("S", ["A"]), ("A", []), ("A", ["A", "B", c]), ("B", ["C", a]), ("B", ["C", "error"]), ("C", []), ("C", [b])]
+        nts = ["S", "A", "B", "C"]
+    else:             # nested brackets, `!` after a complete inner nonterminal
+        prods = [("S", [a, "A", b]), ("A", ["B"]), ("A", ["B", "error"]), ("A", ["error"]), ("B", [c]), ("B", [a, "A", b])]
+        nts = ["S", "A", "B"]
+    ts = [t for t in TS if any(t in r for _, r in prods)]
+    return {"id": "y%05d" % idx, "ts": ts, "nts": nts, "starts": ["S"], "recovery": True, "recshape": True,
+            "prods": [{"lhs": l, "rhs": list(r)} for l, r in prods]}
+
+
 def random_population(seed, n, **kw):
     rng = random.Random(seed)
     out = []
